@@ -64,6 +64,10 @@ def ev(v, val, hooks=None):
                 raise Raised('TypeError')
         if op == 'not':
             return not ev(a[0], val, hooks)
+        if op == 'and':
+            return all(ev(x, val, hooks) for x in a)
+        if op == 'or':
+            return any(ev(x, val, hooks) for x in a)
         if op == 'call':
             name = a[0]
             args = [ev(x, val, hooks) for x in a[1:]]
@@ -153,6 +157,24 @@ def ev(v, val, hooks=None):
                             ev(a[3], val, hooks)]
             except TypeError:
                 raise Raised('TypeError')
+        if op == 'elem':
+            seq = ev(a[0], val, hooks)
+            try:
+                return list(seq)[ev(a[1], val, hooks)] if not isinstance(
+                    seq, (str, bytes, list, tuple, range)) else \
+                    seq[ev(a[1], val, hooks)]
+            except (IndexError, TypeError):
+                raise Raised('IndexError')
+        if op == 'range':
+            return range(*[ev(x, val, hooks) for x in a])
+        if op == 'exists':
+            seq, ph, test = a
+            for item in ev(seq, val, hooks):
+                v2 = dict(val)
+                v2[ph] = item
+                if ev(test, v2, hooks):
+                    return True
+            return False
         if op == 'list':
             return [ev(x, val, hooks) for x in a]
         if op == 'set':
